@@ -33,7 +33,7 @@ def handle : Handler := fun j a => do
   let a := if mreq != req || mq != quorum || mchk.isSome != (chk != "")
     then a.mismatch s!"c12 n={n} w={w} ss={ss} p={p}: impl req={req} quorum={quorum} check='{chk}' model req={mreq} quorum={mq} check={mchk}"
     else a
-  let a := a.note s!"{n}/{w}/{ss}/{p}" (decide (n ≥ 2) && decide (w ≥ 1))
+  let a := a.note (decide (n ≥ 2) && decide (w ≥ 1))
   let a := a.tag (if chk != "" then "check:refused" else "check:ok")
   let a := a.sample j.compress
   match monitor n w ss p req quorum (chk != "") with
